@@ -719,6 +719,13 @@ impl<F: Read + Write + Seek> Package<F> {
         check_catalog_rows(&make_columns_table(false), &columns_rows)?;
         check_catalog_rows(&make_tables_table(false), &tables_rows)?;
         check_catalog_rows(&make_validation_table(false), &validation_rows)?;
+        if table_name != VALIDATION_TABLE_NAME
+            && !self.tables.contains_key(VALIDATION_TABLE_NAME)
+        {
+            // (A database written by something else may lack the validation
+            // table, which is where the rows for the new columns have to go.)
+            not_found!("Table {:?} does not exist", VALIDATION_TABLE_NAME);
+        }
         self.check_catalog_room(
             COLUMNS_TABLE_NAME,
             "Table",
@@ -814,10 +821,12 @@ impl<F: Read + Write + Seek> Package<F> {
             }
             self.comp_mut().remove_stream(&stream_name)?;
         }
-        self.delete_rows(
-            Delete::from(VALIDATION_TABLE_NAME)
-                .with(Expr::col("Table").eq(Expr::string(table_name))),
-        )?;
+        if self.tables.contains_key(VALIDATION_TABLE_NAME) {
+            self.delete_rows(
+                Delete::from(VALIDATION_TABLE_NAME)
+                    .with(Expr::col("Table").eq(Expr::string(table_name))),
+            )?;
+        }
         self.delete_rows(
             Delete::from(COLUMNS_TABLE_NAME)
                 .with(Expr::col("Table").eq(Expr::string(table_name))),
